@@ -135,3 +135,16 @@ Example C05_examples :
   re_pat_okb (s2b "^x\'y|a,b$") = true /\
   datetime_splits (s2b "datetime='/,T,.'") = [s2b "/"; s2b "T"; s2b "."].
 Proof. vm_compute. repeat split; reflexivity. Qed.
+
+(* FROM THE SOURCE TEXT.  "in / unique compare numbers by their canonical decimal rendering": that rendering is ToStr
+   (valid/common.go).  fn_ToStr is its go/ast syntax tree (a type switch), regenerated from /repo on every run; under
+   the semantics of Model/GoToStr.v it returns, on every string, signed, unsigned, floating-point and boolean value,
+   exactly the model's to_str (decimal digits of the exact value; for floats strconv's shortest 'f' text at the
+   value's own precision), and fmt's %v for every other kind. *)
+From PGV Require Import Base.MiniGo Extracted.SourceFnsToStr Model.GoToStr Proofs.GoToStrProofs.
+Theorem C05_tostr_from_source : forall v, scalar v = true -> run_tostr fn_ToStr v = Some (to_str v).
+Proof. exact tostr_from_source. Qed.
+Print Assumptions C05_tostr_from_source.
+Theorem C05_tostr_other_kinds : forall v, scalar v = false -> run_tostr fn_ToStr v = Some opaque_echo.
+Proof. exact tostr_other. Qed.
+Print Assumptions C05_tostr_other_kinds.
